@@ -117,10 +117,25 @@ pub fn decode(t: &mut Tape) -> Case {
     let ext_use = tid("ext_use", "UNKNOWN");
     let ext_two = tid("ext_two", "UNKNOWN");
     let ext_exit = tid("ext_exit", "UNKNOWN");
+    let ext_printf = tid("ext_printf", "UNKNOWN");
+    let ext_sprintf = tid("ext_sprintf", "UNKNOWN");
     let externs = vec![
         extern_symbol(ext_use.clone(), "ext_use", &["RDI"], false),
         extern_symbol(ext_two.clone(), "ext_two", &["RDI", "RSI", "RDX"], false),
         extern_symbol(ext_exit.clone(), "ext_exit", &["RDI"], true),
+        // variadic functions with a format string that is never a known constant here (empty memory image): the
+        // signature analysis documents that it then assumes all remaining integer parameter registers to be
+        // filled with variadic parameters
+        {
+            let mut e = extern_symbol(ext_printf.clone(), "printf", &["RDI"], false);
+            e.has_var_args = true;
+            e
+        },
+        {
+            let mut e = extern_symbol(ext_sprintf.clone(), "sprintf", &["RDI", "RSI"], false);
+            e.has_var_args = true;
+            e
+        },
     ];
     let mut subs = vec![];
     for si in 0..nsubs {
@@ -149,9 +164,11 @@ pub fn decode(t: &mut Tape) -> Case {
                     vec![jmp(jt, Jmp::Return(evar(&tv)))]
                 }
                 8 | 9 => {
-                    let tg = match g.t.below(5) {
+                    let tg = match g.t.below(7) {
                         0 => ext_exit.clone(),
                         1 => ext_two.clone(),
+                        5 => ext_printf.clone(),
+                        6 => ext_sprintf.clone(),
                         2 if nsubs > 1 => sub_tid(0x1000 * (1 + g.t.below(nsubs) as u64)),
                         _ => ext_use.clone(),
                     };
@@ -248,6 +265,13 @@ fn block_gen_kill(project: &Project, b: &Term<Blk>, params: &BTreeSet<String>, c
                         for a in &sym.parameters {
                             if let Arg::Register { expr, .. } = a {
                                 add_use(&mut gen, &killed, expr, "extern-call-declared-parameter");
+                            }
+                        }
+                        if sym.has_var_args {
+                            // format string unknown: every remaining integer parameter register may hold a
+                            // variadic argument that the callee reads
+                            for p in PARAM_REGS.iter().skip(sym.parameters.len()) {
+                                add_use(&mut gen, &killed, &evar(&var(p, 8)), "extern-variadic-call-remaining-parameter-register");
                             }
                         }
                     }
